@@ -13,7 +13,7 @@ Proof. split; [left; reflexivity|cbn; discriminate]. Qed.
 Ltac unfold_all :=
   unfold step, do_commit, guard_write, guard_read, do_newbtree, do_openbtree, do_p1, do_p2, do_rollback, do_begin,
     op_add, op_find, op_update, op_remove, undo, undo_rewound,
-    set_phase, set_committed, set_disk, set_work, set_prepared, set_open, set_handle, has_begun in *.
+    set_refetched, set_phase, set_committed, set_disk, set_work, set_prepared, set_open, set_handle, has_begun in *.
 
 Ltac split_matches :=
   repeat (match goal with
@@ -22,7 +22,7 @@ Ltac split_matches :=
               | context [match _ with _ => _ end] => fail
               | _ => destruct x eqn:?
               end
-          end; cbn [fst snd phase committed tmode disk handle opened created work removed_db bcount prepared] in *).
+          end; cbn [fst snd phase committed tmode disk handle opened created work removed_db bcount wcount prepared stale] in *).
 
 Ltac phase_cases s :=
   let H := fresh in
@@ -41,7 +41,7 @@ Lemma step_fin s c : phase s = 2 ->
   (forall f1 f2, c = CCommit f1 f2 -> fst (step s c) = RErr) /\
   (is_store_op c = true -> is_success (fst (step s c)) = false).
 Proof.
-  intros H2. destruct s as [ph cm md dk hd op cr wk rm bc pr]; cbn in H2; subst ph.
+  intros H2. destruct s as [ph cm md dk hd op cr wk rm bc wc pr sl]; cbn in H2; subst ph.
   destruct c; unfold_all; cbn;
     repeat split; try discriminate; try reflexivity; intros; try discriminate;
     split_matches; try reflexivity; try discriminate.
@@ -53,7 +53,7 @@ Ltac solve_phase_ok :=
 Lemma step_inv s c : Inv s -> Inv (snd (step s c)) /\ phase s <= phase (snd (step s c)) /\ tmode (snd (step s c)) = tmode s.
 Proof.
   intros [Hp Hc]. unfold Inv, phase_ok in *.
-  destruct s as [ph cm md dk hd op cr wk rm bc pr]; cbn in Hp, Hc.
+  destruct s as [ph cm md dk hd op cr wk rm bc wc pr sl]; cbn in Hp, Hc.
   destruct Hp as [H|[H|[H|H]]]; subst ph;
   destruct c; unfold_all; cbn;
     split_matches; cbn;
@@ -63,7 +63,7 @@ Qed.
 Lemma step_unbegun s c : phase s = -1 -> c <> CBegin ->
   snd (step s c) = s /\ (is_store_op c = true -> is_success (fst (step s c)) = false) /\ (is_end c = true -> fst (step s c) = RErr).
 Proof.
-  intros H1 Hc. destruct s as [ph cm md dk hd op cr wk rm bc pr]; cbn in H1; subst ph.
+  intros H1 Hc. destruct s as [ph cm md dk hd op cr wk rm bc wc pr sl]; cbn in H1; subst ph.
   destruct c; try congruence; unfold_all; cbn;
     repeat split; intros; try discriminate; try reflexivity; split_matches; try reflexivity; try discriminate.
 Qed.
